@@ -22,7 +22,7 @@ FFT_CFGS_QUICK = ["p17", "p17_packed", "p97_packed"]
 FFT_CFGS_THOROUGH = ["p97", "p97_packed8"]
 FFT_CANARIES = ["no_bitrev", "twiddle_stride", "copy_mask", "skip_round0", "ifft_half", "ifft_no_reverse",
                 "coset_pow", "packed_omega"]
-BITREV_CFGS_QUICK = ["faithful", "scaled", "scaled3", "faithful13"]
+BITREV_CFGS_QUICK = ["faithful", "faithful_bigel", "scaled", "scaled3", "faithful13"]
 BITREV_CFGS_THOROUGH = ["faithful14", "scaled12"]
 BITREV_CANARIES = ["swap_always", "no_second_transpose", "chunks_args", "swap_quadrant", "large_shift"]
 PARTS = 6
@@ -263,6 +263,14 @@ def run(chk, tier):
         chk.evaluations += out["cases"]
         chk.nontrivial += out["nontrivial"]
         digests[fl] = out["transform_digest"]
+        if fl == "release":
+            # which (element size, lb_n) pairs exercised which variant of reverse_index_bits_in_place
+            chk.extra["inplace_strategies"] = {"rule": "swap loop iff bytes << lb_n <= 2^16 (SMALL_ARR_SIZE) or bytes >= 2^14 (BIG_T_SIZE), "
+                                                       "else rows reversal + 1 (even lb_n) / 2 (odd lb_n) square transposes + rows reversal",
+                                               "by_type": out["inplace_strategies"]}
+            chunked = [t for t in out["inplace_strategies"] if t["chunked_even"] and t["chunked_odd"]]
+            if not any(t["bytes"] >= 2048 for t in chunked) or not any(t["bytes"] <= 16 for t in chunked):
+                raise ToolError("the bulk run no longer reaches the chunked in-place bit reversal with both small and KiB-sized elements")
         chk.extra.setdefault("bulk", {})[fl] = {k: out[k] for k in ("cases", "packed_width", "transform_digest", "reference_ops",
                                                                      "mismatches_defect_families", "mismatches_other")}
         for m in out["mismatches"]:
